@@ -25,7 +25,7 @@ RULE = (
     "drops the connection, and what the application sends from inside on_state_change(ACTIVE) never overtakes the endpoint's own Logon (a Logout as the first frame of a connection produces no callback other than the disconnect); refused sends raise FIXConnectionError, write nothing, consume no number, leave no journal row; wrong "
     "BeginString frames have no effect; CompID / MsgSeqNum defects never reach on_message, never advance next_num_in, leave the "
     "endpoint disconnected (with a Logout carrying Text when the CompIDs were right); a disconnect is reported exactly once and "
-    "nothing is emitted or called back afterwards. Non-trivial = defect != none or pre-logon state; the product is enumerated completely."
+    "nothing is emitted or called back afterwards; the same three clauses under interleavings (the controlled scheduler of C14: the peer's EOF, a reset while senders wait in drain, or the application's disconnect() arrive while other tasks are suspended in drain or in a hook). Non-trivial = defect != none or pre-logon state; the product is enumerated completely."
 )
 ASSUMPTIONS = [
     "FREE: whether a Logout is written for wrong/missing CompIDs; too-low numbers while a resend is awaited, on SequenceReset or with PossDupFlag=Y; "
@@ -451,14 +451,85 @@ def EXHAUSTIVE(tier):
     return True
 
 
+INTERLEAVED = [("I:logon",), ("I:logon", "I:logout"), ("A", "X:drop"), ("R:resend", "X:drop", "A"), ("R:resend", "X:logout", "A"), ("A", "H")]
+
+
+def interleaved_one(acc, tasks, schedule):
+    """The connection ends (EOF from the peer, reset while draining, disconnect() by the application) while other tasks are
+    suspended in drain() or in an application hook: afterwards the endpoint is and stays disconnected, the disconnect was
+    reported exactly once and nothing is written or called back behind it."""
+    from checks import c14
+
+    start = "connected" if any(t.startswith("I:") for t in tasks) else "active"
+    sch = c14.Sched(tasks, start)
+    case = {"interleaved": list(tasks), "schedule": [list(c) for c in schedule]}
+    try:
+        if start == "active":
+            sch.prefill()
+        for c in schedule:
+            if c not in sch.choices():
+                break
+            sch.apply(c)
+        sch.finish()
+        ep = sch.ep
+        lost = sch.failed or sch.eof_fed or any(t.startswith("X:") for t in tasks if t not in sch.unstarted)
+        evs = [(k, getattr(pl, "name", pl)) for k, pl, _t in ep.events]
+        nd = sum(1 for k, _ in evs if k == "disconnect")
+        if nd > 1:
+            acc.violation("C11:interleaved/disconnect-reported-twice", f"on_disconnect called {nd} times | tasks={tasks} schedule={schedule}", case)
+        if nd >= 1:
+            i = max(j for j, e in enumerate(evs) if e[0] == "disconnect")
+            after = [e for e in evs[i + 1:] if e[0] in ("msg", "logon", "state")]
+            if after:
+                acc.violation("C11:interleaved/callbacks-after-disconnect", f"callbacks after on_disconnect: {after} | tasks={tasks} schedule={schedule}", case)
+            if ep.connection_state.name not in ("DISCONNECTED_BROKEN_CONN", "DISCONNECTED_WCONN_TODAY", "DISCONNECTED_NOCONN_TODAY"):
+                acc.violation("C11:interleaved/not-disconnected-after-disconnect", f"on_disconnect was reported, yet the endpoint ends in {ep.connection_state.name} | tasks={tasks} schedule={schedule}", case)
+        acc.case(("interleaved", tuple(tasks), tuple(schedule)) if lost else None, cls=["interleaved", "interleaved/connection-lost" if lost else "interleaved/connection-kept"])
+    finally:
+        sch.close()
+
+
+def interleaved(acc, depth):
+    from checks import c14
+
+    for tasks in INTERLEAVED:
+        def rec(schedule):
+            start = "connected" if any(t.startswith("I:") for t in tasks) else "active"
+            sch = c14.Sched(tasks, start)
+            try:
+                if start == "active":
+                    sch.prefill()
+                ok = True
+                for c in schedule:
+                    if c not in sch.choices():
+                        ok = False
+                        break
+                    sch.apply(c)
+                ch = sch.choices() if ok else []
+            finally:
+                sch.close()
+            if not ok:
+                return
+            interleaved_one(acc, tasks, schedule)
+            if len(schedule) < depth:
+                for c in ch:
+                    if c[0] == "cancel":
+                        continue
+                    rec(schedule + [c])
+        rec([])
+
+
 def plan(tier, seed):
-    jobs = [("product", {"state": s}) for s in STATES] + [("disconnected_states", {})]
+    jobs = [("product", {"state": s}) for s in STATES] + [("disconnected_states", {})] + [("interleaved", {"depth": 5 if tier == "quick" else 7})]
     n, k = (150, 4) if tier == "quick" else (6000, 8)
     jobs += [("hyp_shard", {"n": n, "seed": derive_seed(seed, PROPERTY, i)}) for i in range(k)]
     return jobs
 
 
 def replay(acc, case):
+    if "interleaved" in case:
+        interleaved_one(acc, tuple(case["interleaved"]), [tuple(c) for c in case["schedule"]])
+        return
     if "disconnected" in case:
         disconnected_states(acc)
         return
